@@ -236,6 +236,21 @@ theorem crt_spec (m : Mzp) (ok : CrtOk m) (hw2 : 2 ≤ m.w) (x : List Nat) (hx :
 
 /-! ### the tables of `MultiZmodP::new` meet `CrtOk` -/
 
+theorem pprodModn_lt (n P : Nat) (hn : 0 < n) : pprodModn n P < n := by
+  unfold pprodModn
+  have := Nat.mod_lt P hn
+  split_ifs <;> omega
+
+theorem pprodModn_neg (n P : Nat) (hn : 0 < n) : (pprodModn n P + P) % n = 0 := by
+  unfold pprodModn
+  have hr := Nat.mod_lt P hn
+  have hd := Nat.div_add_mod P n
+  split_ifs with h
+  · have : P % n = 0 := by omega
+    rw [Nat.zero_add, this]
+  · have : n - P % n + P = n * (P / n + 1) := by rw [Nat.mul_add, Nat.mul_one]; omega
+    rw [this, Nat.mul_mod_right]
+
 theorem new_fields2 (n logsize : Nat) (m : Mzp) (h : new n logsize = some m) :
     ∃ w, m.w = w ∧ m.n = n ∧ m.kw = (Ymq.Checked.bitlen n + 63) / 64 ∧
       m.primes = Ymq.Gen.Params.NTT_PRIME_VALUES.take w ∧
@@ -243,7 +258,8 @@ theorem new_fields2 (n logsize : Nat) (m : Mzp) (h : new n logsize = some m) :
         (prodExcept (Ymq.Gen.Params.NTT_PRIME_VALUES.take w) i % (Ymq.Gen.Params.NTT_PRIME_VALUES.take w).getD i 1)
         ((Ymq.Gen.Params.NTT_PRIME_VALUES.take w).getD i 1)) = some m.crtPinv ∧
       m.crtPModn = m.crtP.map (· % n) ∧
-      ∃ pm, (pm < n ∨ n = 0) ∧ m.pprodsModn = 0 :: pm :: pprodsLoop n pm (w - 2) pm [] := by
+      ∃ pm, (pm < n ∨ n = 0) ∧ pm = pprodModn n m.pprod ∧
+        m.pprodsModn = 0 :: pm :: pprodsLoop n pm (w - 2) pm [] := by
   unfold new at h
   simp only at h
   repeat' split at h
@@ -251,8 +267,10 @@ theorem new_fields2 (n logsize : Nat) (m : Mzp) (h : new n logsize = some m) :
     | contradiction
     | (simp only [Option.some.injEq] at h
        subst h
-       refine ⟨_, rfl, rfl, rfl, rfl, ‹_›, rfl, _, ?_, rfl⟩
-       omega)
+       refine ⟨_, rfl, rfl, rfl, rfl, ‹_›, rfl, _, ?_, rfl, rfl⟩
+       rcases Nat.eq_zero_or_pos n with h0 | h0
+       · exact Or.inr h0
+       · exact Or.inl (pprodModn_lt _ _ h0))
 
 
 theorem table_primes_ok : ∀ j ∈ List.range 26, 0 < Ymq.Gen.Params.NTT_PRIME_VALUES.getD j 0 ∧
@@ -317,7 +335,7 @@ theorem pprodsLoop_spec (n pm : Nat) (hpm : pm < n) : ∀ (c pk : Nat) (acc : Li
 theorem new_crtOk (n logsize : Nat) (m : Mzp) (h : new n logsize = some m) (hn : 0 < n) (hw2 : 2 ≤ m.w) :
     CrtOk m := by
   have est := new_estOk n logsize m h hw2
-  obtain ⟨w, ew, en, ekw, epr, einv, emodn, pm, hpm, epp⟩ := new_fields2 n logsize m h
+  obtain ⟨w, ew, en, ekw, epr, einv, emodn, pm, hpm, _, epp⟩ := new_fields2 n logsize m h
   have hw26 : w ≤ 26 := by rw [← ew]; exact est.w_le
   have hprime : ∀ j, j < m.w → m.primes.getD j 0 = Ymq.Gen.Params.NTT_PRIME_VALUES.getD j 0 := by
     intro j hj
